@@ -151,7 +151,7 @@ structure OSt where
   cmtUnknown : Bool := false
   dirty : List Nat := []
   /-- (store mutation count, committed view) after every op, newest first -/
-  hist : List (Nat × Cmt) := [(0, ([], "-:0"))]
+  hist : List (Nat × Cmt × Bool) := [(0, ([], "-:0"), false)]
   now : Nat := 0
   deadline : Nat := 0
   csr0 : Bool := false
@@ -205,9 +205,15 @@ def oracle (st : OSt) (op : Op) (v : View) : OSt × List String :=
   -- the prologue of a session-borne command (and `poll`) runs the fail-safe timer
   let timerRuns : Bool := (isSessOp op).isSome && opSess.isSome || op == .poll
   let expiredByTimer : Bool := p.armed.isSome && timerRuns && st.now ≥ st.deadline
+  -- a crash point in the past rewinds the store: what comes up is what had been there (same
+  -- incarnations), and the later history of this case never happened
+  let rewind : Bool := match op with
+    | .crash n => n < p.k
+    | _ => false
+  let pfabs := if rewind then v.fabs else p.fabs
   -- 1. fabric incarnations
   let inc := v.fabs.foldl (fun acc f =>
-      match p.fabs.find? (fun g => g.idx = f.idx) with
+      match pfabs.find? (fun g => g.idx = f.idx) with
       | some g => if g.ident = f.ident then acc else setKV acc f.idx (lookupD acc f.idx 0 + 1)
       | none => setKV acc f.idx (lookupD acc f.idx 0 + 1)) st.inc
   -- 2. resumption records
@@ -215,7 +221,7 @@ def oracle (st : OSt) (op : Op) (v : View) : OSt × List String :=
       let fresh : Bool := match op with
         | .caseEst f n _ => isSessNew v.status && r.fab = f && r.peer = n
         | _ => false
-      if fresh then (r.fab, r.peer, r.rid, lookupD inc r.fab 0)
+      if fresh || rewind then (r.fab, r.peer, r.rid, lookupD inc r.fab 0)
       else match st.resBind.find? (fun b => b.1 = r.fab && b.2.1 = r.peer) with
         | some b => (r.fab, r.peer, r.rid, b.2.2.2)
         | none =>
@@ -224,7 +230,7 @@ def oracle (st : OSt) (op : Op) (v : View) : OSt × List String :=
           | none => (r.fab, r.peer, r.rid, lookupD inc r.fab 0))
   let kvResBind := match op with
     | .flush => if okS then resBind ++ st.kvResBind else st.kvResBind
-    | _ => st.kvResBind
+    | _ => if rewind then [] else st.kvResBind
   -- 3. sessions
   let sessBind : List (Nat × Nat × Nat) := (v.sess.filter (fun s => s.fab ≠ 0)).map (fun s =>
       match (if restartLike op then none else st.sessBind.find? (fun b => b.1 = s.id && b.2.1 = s.fab)) with
@@ -332,7 +338,7 @@ def oracle (st : OSt) (op : Op) (v : View) : OSt × List String :=
       [s!"C08 expiry-failed: the fail-safe timer ran out (deadline {st.deadline}, now {st.now}) but the fail-safe is still armed; status {v.status}"]
     else []
   -- 6. C11: restart / crash / reset
-  let (v11r, cmtF, cmtN, hist, cmtUnknown, dirty) : List String × List (Nat × String) × String × List (Nat × Cmt) × Bool × List Nat :=
+  let (v11r, cmtF, cmtN, hist, cmtUnknown, dirty) : List String × List (Nat × String) × String × List (Nat × Cmt × Bool) × Bool × List Nat :=
     match op with
     | .restart | .corrupt =>
       if v.status ≠ "ok" then ([s!"C11 startup-failed: {v.status}"], cmtF, cmtN, st.hist, st.cmtUnknown, [])
@@ -347,17 +353,21 @@ def oracle (st : OSt) (op : Op) (v : View) : OSt × List String :=
         let le := st.hist.filter (fun e => e.1 ≤ n)
         let gt := (st.hist.filter (fun e => e.1 > n)).reverse
         let a : Cmt := match le with
-          | e :: _ => e.2
+          | e :: _ => e.2.1
           | [] => ([], "-:0")
+        -- a crash in the middle of a factory reset: the reset is simply not finished (not judged)
+        let inReset : Bool := match gt with
+          | e :: _ => e.2.2
+          | [] => false
         let exact : Bool := match le with
           | e :: _ => e.1 = n
           | [] => n = 0
         -- strictly inside the writes of one op: that op's committed view is allowed as well
         let alts : List Cmt := if exact then [a] else match gt with
-          | e :: _ => [a, e.2]
+          | e :: _ => [a, e.2.1]
           | [] => [a]
-        let hist' := if le.isEmpty then [(0, (([] : List (Nat × String)), "-:0"))] else le
-        if st.cmtUnknown then ([], viewCmt v, v.nets, hist', false, [])
+        let hist' := if le.isEmpty then [(0, (([] : List (Nat × String)), "-:0"), false)] else le
+        if st.cmtUnknown || (inReset && !exact) then ([], viewCmt v, v.nets, hist', false, [])
         else match alts.find? (fun c => (diffView v.fabs v.nets c []).isNone) with
           | some c => ([], c.1, c.2, hist', false, [])
           | none =>
@@ -370,7 +380,7 @@ def oracle (st : OSt) (op : Op) (v : View) : OSt × List String :=
          [], "-:0", st.hist, false, [])
       else ([], cmtF, cmtN, st.hist, true, dirty)
     | _ => ([], cmtF, cmtN, st.hist, st.cmtUnknown, dirty)
-  let hist := (v.k, (cmtF, cmtN)) :: hist
+  let hist := (v.k, (cmtF, cmtN), op == .freset) :: hist
   ({ prev := v, inc := inc, sessBind := sessBind, resBind := resBind, kvResBind := kvResBind,
      cmtF := cmtF, cmtN := cmtN, cmtUnknown := cmtUnknown, dirty := dirty, hist := hist,
      now := now, deadline := deadline, csr0 := csr0, csr1 := csr1, rootC := rootC, nocC := nocC },
